@@ -163,3 +163,61 @@ def c_wccn(ctx, case):
         d = WCCN(pinv=case["pinv"]).fit(darr(X, case["chunks"]), y)
         Wd = np.asarray(dask.compute(d.weights)[0], float)
         ctx.close(Wd, W, "dask WCCN weights == numpy", rtol=1e-9, atol=wt)
+
+
+def g_refit(draw):
+    F = gen.integer(draw, 2, 4)
+    kind = gen.choice(draw, ["whitening", "wccn"])
+    out = {"kind": kind, "pinv": gen.choice(draw, [False, False, True]), "between": gen.choice(draw, ["transform", "transform", "pickle", "none"])}
+    for name in ("A", "B"):
+        if kind == "whitening":
+            n = gen.integer(draw, F + 2, 20)
+            X, _ = full_rank_data(draw, n, F)
+            out[name] = {"X": X}
+        else:
+            K = gen.integer(draw, 2, 4)
+            sizes = [gen.integer(draw, 2, 5) for _ in range(K)]
+            while sum(s - 1 for s in sizes) < F + 1:
+                sizes[gen.integer(draw, 0, K - 1)] += 1
+            n = sum(sizes)
+            X, r = full_rank_data(draw, n, F)
+            cls = np.concatenate([np.full(s, i) for i, s in enumerate(sizes)])
+            perm = np.array(gen.permutation(draw, n))
+            out[name] = {"X": X[perm], "y": cls[perm]}
+    return out
+
+
+@REG.obligation("refit_equals_fresh_estimator", g_refit, quick=200, thorough=4000)
+def c_refit(ctx, case):
+    """An estimator that was already fitted (and used) and is fitted again behaves like a fresh one fitted on the new data."""
+    import copy
+    import pickle
+
+    from bob.learn.em import WCCN, Whitening
+
+    A, B = case["A"], case["B"]
+    for d in (A, B):
+        cov = np.cov(d["X"].T)
+        if np.linalg.cond(cov) > 1e6:
+            ctx.discard("ill-conditioned")
+    make = (lambda: Whitening(pinv=case["pinv"])) if case["kind"] == "whitening" else (lambda: WCCN(pinv=case["pinv"]))
+    args = (lambda d: (d["X"],)) if case["kind"] == "whitening" else (lambda d: (d["X"], d["y"]))
+    t = make().fit(*args(A))
+    if case["between"] == "transform":
+        t.transform(A["X"])
+    elif case["between"] == "pickle":
+        t.transform(A["X"][:1])
+        t = pickle.loads(pickle.dumps(copy.deepcopy(t)))
+    t.fit(*args(B))
+    fresh = make().fit(*args(B))
+    ctx.note(True, "kind:" + case["kind"], "between:" + case["between"])
+    W, Wf = np.asarray(t.weights, float), np.asarray(fresh.weights, float)
+    ctx.close(W, Wf, "weights after re-fitting vs fresh estimator", rtol=0, atol=0)
+    Y, Yf = np.asarray(t.transform(B["X"]), float), np.asarray(fresh.transform(B["X"]), float)
+    sc = float(np.abs(Yf).max()) + 1e-300
+    ctx.close(Y, Yf, "transform after re-fitting vs fresh estimator", rtol=1e-9, atol=1e-9 * sc)
+    if case["kind"] == "whitening":
+        cond = np.linalg.cond(np.cov(B["X"].T))
+        sd_in = np.sqrt(np.diag(np.cov(B["X"].T))).max()
+        ctx.close(Y.mean(axis=0), np.zeros(Y.shape[1]), "mean of whitened data after re-fitting", rtol=0,
+                  atol=1e3 * EPS * cond * (1 + np.abs(B["X"]).max() / sd_in))
